@@ -423,6 +423,9 @@ public:
         if (!basic::varint_.parse(iter, last, ctx, rctx, props_length))
             return false;
 
+        if (props_length < 0 || std::distance(iter, last) < props_length)
+            return false;
+
         const It scoped_last = iter + props_length;
         // attr = Props{};
 
